@@ -171,8 +171,24 @@ def r3_client_gate(ctx):
                     # edge_outcome normalises negations: True <=> `self.independent` holds
                     if out is True:
                         ind_edges.append((b.idx, tb, lab))
-    loop_sends = [(bb, t) for bb, t in sends if rt.dominates(recv[0][0], bb)]
-    queue_sends = [(bb, t) for bb, t in sends if not rt.dominates(recv[0][0], bb)]
+    # classify delivery sites by where the delivered bytes come from: released from the queue, or read from the network this frame
+    def _from(bb, t, src_bb):
+        deps = dep_closure(rt, t["args"][1])
+        # the event is the result of deserialize(.., &mut message): follow the message argument of that call
+        more = set()
+        for (k, d) in deps:
+            if k == "call":
+                for a_ in rt.blocks[d].term.get("args", []):
+                    more |= dep_closure(rt, a_)
+        return ("call", src_bb) in (deps | more)
+    queue_sends = [(bb, t) for bb, t in sends if _from(bb, t, pops[0][0])]
+    loop_sends = [(bb, t) for bb, t in sends if (bb, t) not in queue_sends]
+    ctx.check(bool(queue_sends) and bool(loop_sends), "receive_typed/two-delivery-paths", site_of(rt), "expected a delivery of released queue entries and a delivery of newly received events")
+    # order within the channel: what was queued earlier (older ticks) is delivered before anything received in this frame
+    late = [bb for bb, t in queue_sends if any(rt.reachable_avoiding(bb, [], start=lb) for lb, _ in loop_sends) or rt.reachable_avoiding(bb, [], start=recv[0][0])]
+    ctx.check(not late, "receive_typed/queue-released-before-new-events", site_of(rt, late[0]) if late else site_of(rt, pops[0][0]),
+              "events released from the queue can be delivered after events received in the same frame: two events of one type sent in order on an ordered channel are observed "
+              "out of order when the first had to wait for its update message")
     for bb, t in loop_sends:
         only = not rt.reachable_avoiding(bb, ind_edges + ok_edges, start=recv[0][0])
         ctx.check(only and ind_edges, ctx.nth("receive_typed/delivery-gated"), site_of(rt, bb),
@@ -291,6 +307,9 @@ def r5_mapping(ctx):
                     n_er += 1
                     ctx.bad("%s/invalid_entities-overwritten" % short(p), "%s (%s)" % (b.path, st.get("span", "")), "the record of unmapped entities is overwritten")
     ctx.check(n_er >= 2, "invalid_entities/erasing-writers", "", "only %d erasing writers of the unmapped-entity records found (expected the two after-refusal clears)" % n_er)
+    # refusal relies on the map holding no stale entries: a despawn record always unmaps (same rule as C03.R5)
+    import rules.C03 as C03
+    C03.apply_despawn_unmaps(ctx)
     td = ctx.fn("server_trigger::trigger_deserialize")
     ttr = tracer(td)
     pushes = [(bb, t) for bb, t in td.calls() if callee_decl(t).endswith("Vec::<T, A>::push")]
